@@ -9,7 +9,7 @@
 //           5 apply  6 make_from_tuple  7 tuple_cat(t, tuple<char>)  8 tuple_cat shapes  9 forward_as_tuple/tie/make_tuple
 //           10 tuple<>  11 bind_front shapes  12 inplace_function shapes  13 function_ref shapes
 //           14 reference_wrapper shapes  15 pair with reference members  16 invoke shapes  17 not_fn shapes
-//           18 tuple construction shapes
+//           18 tuple construction shapes  19 further tuple-like sources / reference tuples
 // element kinds: 0 int  1 int const  2 move-only  3 copy-only  4 int&  5 int&&  6 int const&
 #include "vf.hpp"
 #include "vf_contract.hpp"
@@ -289,7 +289,7 @@ struct Cell {
         char sit[64];
         std::snprintf(sit, sizeof sit, "t:%s,result-category", kCat[C]);
         crumb("apply(f,t)", sit);
-        Fn<1> r1(1);
+        Fn<1> r1(1), r1b(1);
         Fn<2> r2(1);
         Fn<3> r3(1);
         Fn<4> r4(1);
@@ -299,7 +299,7 @@ struct Cell {
         C20_SAME(etl::apply(r3, as<C>(et)), std::apply(r3, as<C>(st)));
         C20_SAME(etl::apply(r4, as<C>(et)), std::apply(r4, as<C>(st)));
         C20_SAME(etl::apply(r5, as<C>(et)), std::apply(r5, as<C>(st)));
-        compare_call([&] { return C20_RES(std::apply(r1, as<C>(st))); }, [&] { return C20_RES(etl::apply(r1, as<C>(et))); });
+        compare_call([&] { return C20_RES(std::apply(r1b, as<C>(st))); }, [&] { return C20_RES(etl::apply(r1, as<C>(et))); });
         cover("apply(f,t)->category");
     }
 };
@@ -472,6 +472,13 @@ void probe()
     C20_SAME(etl::get<1>(etl::forward_as_tuple(a, std::move(m))), std::get<1>(std::forward_as_tuple(a, std::move(m))));
     vf::eq_bool("identity", &etl::get<0>(etl::forward_as_tuple(a, std::move(m))) == &a, true);
     cover("get<I>(forward_as_tuple)");
+    for (int v = 0; v < 3; ++v) {
+        int p = v, q = v + 1;
+        auto weigh = [](int x, int y, int z) { return x * 100 + y * 10 + z; };
+        vf::eq_int("apply(f,forward_as_tuple(l,r,cl))", etl::apply(weigh, etl::forward_as_tuple(p, std::move(q), b)),
+            std::apply(weigh, std::forward_as_tuple(p, std::move(q), b)));
+        cover("apply(f,forward_as_tuple)");
+    }
     #elif VF_KIND == 2
     g_subject = "tie";
     crumb("tie(a,b,m)", "lvalues");
@@ -732,8 +739,10 @@ void probe()
     Fn<2> f2(1), g2(1);
     etl::function_ref<A && (A&&)> e2{f2};
     compare_call([&] { return C20_RES(g2(std::move(a))); }, [&] { return C20_RES(e2(std::move(a))); });
-    etl::function_ref<int(Mo)> e3{f};
-    (void)e3;
+    Fn<0> f3(1), g3(1);
+    calllog().track_ids = false;
+    etl::function_ref<int(Mo)> e3{f3};
+    compare_call([&] { return C20_RES(g3(Mo(4))); }, [&] { return C20_RES(e3(Mo(4))); });
     cover("function_ref<A&(A&)>");
     #endif
 }
@@ -785,18 +794,21 @@ void probe()
     cover("reference_wrapper<function>");
     #elif VF_KIND == 3
     crumb("ref(rvalue)", "rejected");
-    constexpr bool e1 = requires { etl::ref(std::move(a)); };
-    constexpr bool s1 = requires { std::ref(std::move(a)); };
-    constexpr bool e2 = requires { etl::cref(std::move(a)); };
-    constexpr bool s2 = requires { std::cref(std::move(a)); };
+    auto wf = []<typename T>(T& x) {
+        constexpr bool e1 = requires { etl::ref(std::move(x)); };
+        constexpr bool s1 = requires { std::ref(std::move(x)); };
+        constexpr bool e2 = requires { etl::cref(std::move(x)); };
+        constexpr bool s2 = requires { std::cref(std::move(x)); };
+        vf::eq_bool("ref(rvalue)-well-formed", e1, s1);
+        vf::eq_bool("cref(rvalue)-well-formed", e2, s2);
+    };
+    wf(a);
     constexpr bool e3 = std::is_constructible_v<etl::reference_wrapper<int>, int>;
     constexpr bool s3 = std::is_constructible_v<std::reference_wrapper<int>, int>;
     constexpr bool e4 = std::is_constructible_v<etl::reference_wrapper<int const>, int>;
     constexpr bool s4 = std::is_constructible_v<std::reference_wrapper<int const>, int>;
     constexpr bool e5 = std::is_constructible_v<etl::reference_wrapper<int>, int const&>;
     constexpr bool s5 = std::is_constructible_v<std::reference_wrapper<int>, int const&>;
-    vf::eq_bool("ref(rvalue)-well-formed", e1, s1);
-    vf::eq_bool("cref(rvalue)-well-formed", e2, s2);
     vf::eq_bool("reference_wrapper<int>(rvalue)-well-formed", e3, s3);
     vf::eq_bool("reference_wrapper<int const>(rvalue)-well-formed", e4, s4);
     vf::eq_bool("reference_wrapper<int>(const lvalue)-well-formed", e5, s5);
@@ -909,11 +921,12 @@ void probe()
     cover("invoke(smart pointer)");
     #elif VF_KIND == 2
     crumb("invoke_r<void>", "result-discarded");
-    C20_SAME(etl::invoke_r<void>(free_fn, 1), std::invoke_r<void>(free_fn, 1));
-    C20_SAME(etl::invoke_r<long>(free_fn, 1), std::invoke_r<long>(free_fn, 1));
+    // std::invoke_r is C++23 (not in libstdc++ 12): the expected type is R by definition
+    same_type<decltype(etl::invoke_r<void>(free_fn, 1)), void>();
+    same_type<decltype(etl::invoke_r<long>(free_fn, 1)), long>();
     vf::eq_int("result", etl::invoke_r<long>(free_fn, 1), 4);
     etl::invoke_r<void>(free_fn, 1);
-    C20_SAME(etl::invoke_r<int const&>(&Base::v, b), std::invoke_r<int const&>(&Base::v, b));
+    same_type<decltype(etl::invoke_r<int const&>(&Base::v, b)), int const&>();
     vf::eq_bool("identity", &etl::invoke_r<int const&>(&Base::v, b) == &b.v, true);
     cover("invoke_r");
     #elif VF_KIND == 3
@@ -1032,6 +1045,105 @@ void probe()
     etl::get<0>(c) = 9;
     vf::eq_int("write-through", a, 9);
     cover("tuple<int&,int const&>");
+    #elif VF_KIND == 4
+    crumb("tuple<int,char>(long,int)", "narrowing-conversions-allowed");
+    long l = 3;
+    int i  = 65;
+    etl::tuple<int, char> e(l, i);
+    std::tuple<int, char> s(l, i);
+    vf::eq_int("element0", etl::get<0>(e), std::get<0>(s));
+    vf::eq_int("element1", etl::get<1>(e), std::get<1>(s));
+    cover("tuple(narrowing)");
+    #elif VF_KIND == 5
+    crumb("tuple<int&>(reference_wrapper<int>)", "reference-element-from-reference_wrapper");
+    int a = 1;
+    etl::tuple<int&, long> e(etl::ref(a), 2L);
+    vf::eq_bool("bound-to-original", &etl::get<0>(e) == &a, true);
+    cover("tuple<int&>(ref)");
+    #endif
+}
+
+// ============================================================================================ 19 further tuple-like sources / reference tuples
+#elif VF_PROBE == 19
+constexpr char const* PNAME = "tuple-like-sources";
+void probe()
+{
+    #if VF_KIND == 0
+    g_subject = "pair<int,long>";
+    for (int a = 0; a < 3; ++a) {
+        for (int b = 0; b < 3; ++b) {
+            crumb("apply(f,pair)", "pair-as-tuple-like");
+            auto w2 = [](int p, long q) { return p * 10 + q; };
+            etl::pair<int, long> ep(a, b);
+            std::pair<int, long> sp(a, b);
+            vf::eq_int("result(lvalue)", etl::apply(w2, ep), std::apply(w2, sp));
+            vf::eq_int("result(const)", etl::apply(w2, std::as_const(ep)), std::apply(w2, std::as_const(sp)));
+            vf::eq_int("result(rvalue)", etl::apply(w2, etl::pair<int, long>(a, b)), std::apply(w2, std::pair<int, long>(a, b)));
+            cover("apply(f,pair)");
+        }
+    }
+    calllog().track_ids = false;
+    Fn<0> f1(1), f2(1);
+    etl::pair<Mo, int> em(Mo(3), 4);
+    std::pair<Mo, int> sm(Mo(3), 4);
+    crumb("apply(f,pair&&)", "move-only-first");
+    compare_call([&] { return C20_RES(std::apply(f2, std::move(sm))); }, [&] { return C20_RES(etl::apply(f1, std::move(em))); });
+    cover("apply(f,pair&&)");
+    #elif VF_KIND == 1
+    g_subject = "tuple<int&,int&>";
+    int a1 = 1, b1 = 2, c1 = 3, d1 = 4, a2 = 1, b2 = 2, c2 = 3, d2 = 4;
+    crumb("swap(tuple&)", "swaps-referred-objects");
+    etl::tuple<int&, int&> e1(a1, b1), e2(c1, d1);
+    std::tuple<int&, int&> s1(a2, b2), s2(c2, d2);
+    e1.swap(e2);
+    s1.swap(s2);
+    vf::eq_int("a", a1, a2);
+    vf::eq_int("b", b1, b2);
+    vf::eq_int("c", c1, c2);
+    vf::eq_int("d", d1, d2);
+    vf::eq_bool("still-bound", &etl::get<0>(e1) == &a1, &std::get<0>(s1) == &a2);
+    cover("tuple<int&,int&>.swap");
+    crumb("operator==", "reference-elements");
+    vf::eq_bool("==", e1 == e2, s1 == s2);
+    vf::eq_bool("==(tuple<int,int>)", e1 == etl::tuple<int, int>(3, 4), s1 == std::tuple<int, int>(3, 4));
+    cover("tuple<int&,int&>==");
+    #elif VF_KIND == 2
+    g_subject = "tuple<int,int>";
+    for (int a = 0; a < 3; ++a) {
+        for (int b = 0; b < 3; ++b) {
+            crumb("tuple_cat(t&,u const&,pair)", "lvalue-sources");
+            etl::tuple<int, int> e1(a, b);
+            etl::tuple<long, int> const e2(b, a + 1);
+            std::tuple<int, int> s1(a, b);
+            std::tuple<long, int> const s2(b, a + 1);
+            etl::pair<int, long> ep(a + 2, b + 2);
+            std::pair<int, long> sp(a + 2, b + 2);
+            C20_SAME(etl::tuple_cat(e1, e2, ep), std::tuple_cat(s1, s2, sp));
+            auto e = etl::tuple_cat(e1, e2, ep);
+            auto s = std::tuple_cat(s1, s2, sp);
+            vf::eq_int("element0", etl::get<0>(e), std::get<0>(s));
+            vf::eq_int("element1", etl::get<1>(e), std::get<1>(s));
+            vf::eq_int("element2", etl::get<2>(e), std::get<2>(s));
+            vf::eq_int("element3", etl::get<3>(e), std::get<3>(s));
+            vf::eq_int("element4", etl::get<4>(e), std::get<4>(s));
+            vf::eq_int("element5", etl::get<5>(e), std::get<5>(s));
+            vf::eq_int("source-unchanged", etl::get<0>(e1) * 10 + etl::get<1>(e1), a * 10 + b);
+            cover("tuple_cat(lvalues)");
+        }
+    }
+    #elif VF_KIND == 3
+    g_subject = "tuple<Mo,int,Co,Mo>";
+    crumb("apply(f,t&&)", "move-only-elements");
+    etl::tuple<Mo, int, Co, Mo> ec(Mo(1), 2, Co(3), Mo(4));
+    std::tuple<Mo, int, Co, Mo> sc(Mo(1), 2, Co(3), Mo(4));
+    auto take = [](Mo&& m, int i, Co const& co, Mo&& m2) {
+        Mo x(std::move(m));
+        return x.v * 1000 + i * 100 + co.v * 10 + m2.v;
+    };
+    vf::eq_int("result", etl::apply(take, std::move(ec)), std::apply(take, std::move(sc)));
+    vf::eq_bool("source-moved-from", etl::get<0>(ec).moved_from, std::get<0>(sc).moved_from);
+    vf::eq_bool("untouched-not-moved-from", etl::get<3>(ec).moved_from, std::get<3>(sc).moved_from);
+    cover("apply(f,t&&)");
     #endif
 }
 #endif
